@@ -234,6 +234,7 @@ type worker struct {
 	distinct map[uint64]struct{}
 	rerun    map[string]bool
 	hangs    int
+	costly   int // failing executions that took about a horizon each (a call that did not return, a stuck tracer)
 }
 
 type sample struct {
@@ -344,8 +345,9 @@ func (s *Spec) exploreSubtree(w *worker, prefix []int, deadline time.Time) shard
 	res := shardResult{Prefix: prefix, Outcomes: map[string]int{}}
 	cur := append([]int{}, prefix...)
 	for {
-		if w.hangs >= 3 {
-			// executions that hang cost a whole horizon each: what was seen is reported, the rest of this worker's share is cut
+		if w.hangs >= 3 || w.costly >= 12 {
+			// executions that hang (or fail only after waiting a whole horizon for a call that does not return) cost a
+			// horizon each: what was seen is reported, the rest of this worker's share is cut (exhaustive: false)
 			res.Cut = true
 			return res
 		}
@@ -353,7 +355,11 @@ func (s *Spec) exploreSubtree(w *worker, prefix []int, deadline time.Time) shard
 			res.Cut = true
 			return res
 		}
+		t0 := time.Now()
 		x, st := s.runOnce(w, cur, 0)
+		if len(x.fails) > 0 && time.Since(t0) >= 8*time.Second {
+			w.costly++
+		}
 		for try := 0; try < 3 && st != "hang" && onlyHarness(x.fails); try++ {
 			// the harness could not set the scene (e.g. an environment that did not come up on a loaded machine): that says
 			// nothing about the property; pause and run the same vector again
